@@ -10,6 +10,7 @@ global size_of usize == 8;
 #[verifier::external_type_specification] #[verifier::external_body] pub struct ExPath(Path);
 //@include lib/checksum_spec.rs
 //@include lib/checksum_fns.rs
+//@include lib/ext_ioerror.rs
 //@include lib/io_model.rs
 //@include lib/hash_fns.rs
 //@include lib/delta_fns.rs
